@@ -5,7 +5,7 @@ declared sources; no pointer derived from next_in is retained in persistent stat
 NOT decided: bounds (pos+width <= len on every tail path)."""
 import re
 from common import Report, AnalysisBroken
-import provenance, kernels, asmdb, facts
+import provenance, kernels, asmdb, facts, irrules
 from provenance import base_tag
 from asmflow import tag_name
 
@@ -98,6 +98,51 @@ def check_c_loads(rep):
                     why = 'max_length is %s - %s, but the bytes are read at %s' % (a.ops[0], b.ops[0], i.args[1][1])
             RC.check(ok, mod.where(f, i), '%s: %s: compare258 may read up to that many bytes beyond the position it starts at, i.e. past start_in + avail_in' % (fn, why), key='M-COMPARE-BOUND|%s|%s' % (fn, i.line or 0),
                      sample='%s: max_length = end_in - str2' % fn)
+
+
+def check_hashfill_bound(rep, mod):
+    """the portable hash fillers walk a dictionary of dict_len bytes and hash the 4-byte word at every position that still has 4 bytes"""
+    R = rep.rule('M-HASHFILL-BOUND', 'isal_deflate_hash_base / isal_deflate_hash_mad_base: the loop "while (next_in <=/< end)" with end = dict + dict_len - K reads W bytes at next_in (width of the load helper called '
+                 'on the cursor); K >= W for "<=" and K >= W - 1 for "<": the last word hashed ends at dict + dict_len, no byte behind the dictionary (stale buffer contents, or memory past the caller\'s array) is read '
+                 'or influences the table', floor=2, unit='hash fillers')
+    for fn in ('isal_deflate_hash_base', 'isal_deflate_hash_mad_base'):
+        f = mod.funcs.get(fn)
+        if f is None:
+            raise AnalysisBroken(fn + ' not found')
+        R.instance()
+        dictp = [n for t_, n in f.params if t_ == 'i8*']
+        lenp = f.params[-1][1]
+        found = None
+        for b, br, c in irrules.cond_branches(mod, f):
+            if c is None or c.op != 'icmp' or c.extra['pred'] not in ('ule', 'ult') or (c.ty or '') != 'i8*':
+                continue
+            cur, end = c.ops
+            dcur = f.defs.get(cur)
+            dend = f.defs.get(end)
+            if dcur is None or dcur.op != 'phi' or dend is None or dend.op != 'getelementptr':
+                continue
+            idx = [x.split(' ')[-1] for x in (dend.extra or {}).get('idx', [])]
+            inner = f.defs.get(dend.ops[0])
+            if len(idx) != 1 or not re.match(r'^-?\d+$', idx[0]) or inner is None or inner.op != 'getelementptr' or inner.ops[0] not in dictp:
+                continue
+            ii = [x.split(' ')[-1] for x in (inner.extra or {}).get('idx', [])]
+            z = f.defs.get(ii[0]) if ii else None
+            if z is None or z.op not in ('zext', 'sext') or z.ops[0] != lenp:
+                continue
+            K = -int(idx[0])
+            # width read at the cursor
+            W = None
+            for i in f.all_insns():
+                m_ = re.match(r'^load_(le|be)_u(\d+)', i.callee or '') if i.op == 'call' else None
+                if m_ and i.args[0][1] == cur:
+                    W = int(m_.group(2)) // 8
+            found = (c, K, W, c.extra['pred'])
+        if found is None or found[2] is None:
+            raise AnalysisBroken('%s: loop "cursor <= dict + dict_len - K" with a load at the cursor not recognised' % fn)
+        c, K, W, pred = found
+        need = W if pred == 'ule' else W - 1
+        R.check(K >= need, mod.where(f, c), '%s hashes %d-byte words while next_in %s dict + dict_len - %d: the last word ends %d byte(s) behind the dictionary' % (fn, W, '<=' if pred == 'ule' else '<', K, need - K),
+                key='M-HASHFILL-BOUND|%s' % fn, sample='%s: K = %d >= %d' % (fn, K, need))
 
 
 def main(tier):
@@ -200,7 +245,8 @@ def main(tier):
     import guardloop
     rep.attempt(guardloop.check, rep, 'ALL', r'.', 55)
     import c14, llir
-    rep.attempt(c14.check_stored_flush_reset, rep, llir.library('default'))      # a history that survives a full flush is read through next_in - dist in front of the next input buffer
+    rep.attempt(c14.check_stored_flush_reset, rep, llir.library('default'))
+    rep.attempt(check_hashfill_bound, rep, llir.library('default'))      # a history that survives a full flush is read through next_in - dist in front of the next input buffer
     rep.analysed.update(asm_units=len(units), kernels=len(res), families=sorted({i['fam']['family'] for i in res.values()}),
                         memory_operands=sum(len(i['accesses']) for i in res.values()))
     return rep.finish()
